@@ -621,3 +621,26 @@ addendum('C16', 'R4: tables of short FP names used to write out the long '
          'sort hold the SMT-LIB pairs; R11: numeric-leaf predicates are '
          'regular expressions rejecting non-numerals (never float()/int()/'
          'isdigit()).')
+
+
+# ---- round 9 (DESIGN.md 8.4, "Round 9")
+DEPTH = ('no function of the tree core (nodes.py, nodeio.py) in the scope of '
+         'this property is on a call cycle (helpers, generators, tuple '
+         'comparison, deepcopy, generic pickling included): sa/depthrec.py')
+addendum('C02', 'R13: ' + DEPTH)
+addendum('C04', 'R18: ' + DEPTH)
+addendum('C07', 'R11: ' + DEPTH + '; R2/R4 follow comprehensions over the '
+         'pieces of a rendered text.')
+addendum('C08', 'R10: ' + DEPTH + '; scanner idiom I5 (search for one '
+         'compiled character class).')
+addendum('C11', 'R12: ' + DEPTH)
+addendum('C12', 'R9: ' + DEPTH)
+addendum('C15', 'R11: ' + DEPTH)
+addendum('C01', 'R11 = the positional "cmd" takes the remainder of the '
+         'command line verbatim (C09.R4).')
+addendum('C14', 'R12 = the producer asks every mutator of the pass '
+         '(C02.R4); R13 = the command\'s arguments are not parsed as ddSMT '
+         'options (C09.R4).')
+addendum('C09', 'R7 also covers subprocess.run / check_output.')
+addendum('C03', 'R10 also reports a conversion (float/int) used as the '
+         'judge of a numeric lexeme.')
